@@ -33,6 +33,7 @@ var profilesFor = map[string][]string{
 	"C03": {"utxo"},
 	"C04": {"crash"},
 	"C09": {"retarget"},
+	"C14": {"votes"},
 	"C17": {"headers"},
 }
 
@@ -101,6 +102,9 @@ func run(r *simkit.Run) {
 
 	net := drawNet(r, prof)
 	net.GenesisTs = start - []int64{1800, 5 * 3600, 3 * 86400}[c.Intn(3, "genesis-age")]
+	if prof == "votes" {
+		drawVoteDeployments(r, net, net.GenesisTs)
+	}
 	w := NewWorld(r, net)
 	cfg := NodeCfg{
 		UtxoCacheMax: []uint64{0, 2000, 200000, 100 << 20}[c.Intn(4, "utxo-cache")],
@@ -149,10 +153,16 @@ func run(r *simkit.Run) {
 	case "retarget":
 		pMut, pLimit = 150, 100
 		maxTx = 1
+	case "votes":
+		pMut, pLimit, pOOO = 60, 120, 100
+		maxTx = 2
 	}
 	steps := simkit.Range(c, 15, 70, "steps")
 	if prof == "headers" {
 		steps = simkit.Range(c, 30, 160, "steps")
+	}
+	if prof == "votes" {
+		steps = simkit.Range(c, 40, 160, "steps")
 	}
 	if prof == "crash" {
 		steps = simkit.Range(c, 8, 40, "steps")
@@ -171,8 +181,14 @@ func run(r *simkit.Run) {
 		case "retarget":
 			wHdr, wQry, wAri = 10, 1, 8
 		}
-		ev := simkit.Pick(c, "event", 40, 40, 4, 4, 3, 3, 4, 2, wInv, wInv, wHdr, wQry, wAri)
+		wVote := 0
+		if prof == "votes" {
+			wVote, wHdr = 15, 5
+		}
+		ev := simkit.Pick(c, "event", 40, 40, 4, 4, 3, 3, 4, 2, wInv, wInv, wHdr, wQry, wAri, wVote)
 		switch ev {
+		case 13:
+			s.CheckVotes()
 		case 10: // deliver a header (usually parent first, sometimes any)
 			var cands []*MBlock
 			for _, b := range w.Blocks[1:] {
@@ -249,6 +265,13 @@ func run(r *simkit.Run) {
 			if prof == "retarget" || prof == "headers" {
 				o.TsDelta = s.steerTimestamp(parent)
 			}
+			if prof == "votes" {
+				top := uint32(0x20000000)
+				if c.Bool(60, "wrong-top-bits") {
+					top = 0x40000000
+				}
+				o.Version = int32(top | s.voteMask())
+			}
 			if c.Bool(pMut, "mutant") {
 				o.Mut = invMuts[c.Intn(len(invMuts), "which-mut")]
 			} else if c.Bool(pLimit, "limit") {
@@ -324,6 +347,9 @@ func run(r *simkit.Run) {
 			r.Event("restart", "clean=%v tip=%v", clean, n.Tip())
 			r.Sig(fmt.Sprintf("restart:%v", clean))
 			s.CheckState("restart")
+			if prof == "votes" {
+				s.CheckVotes()
+			}
 			s.CheckUtxoLive()
 		case 4: // flush
 			mode := []blockchain.FlushMode{blockchain.FlushRequired, blockchain.FlushPeriodic, blockchain.FlushIfNeeded}[c.Intn(3, "flush-mode")]
@@ -358,6 +384,9 @@ func run(r *simkit.Run) {
 	}
 	s.CheckState("final")
 	s.CheckUtxoLive()
+	if prof == "votes" {
+		s.CheckVotes()
+	}
 	if prof == "headers" || prof == "retarget" {
 		s.CheckQueries()
 		s.CheckArith()
